@@ -772,7 +772,7 @@ def run(ctx):
         # share of the histories with two post-edits and no pre-edit
         f02 = {"plain": 0.15 if q else 1.0, "cont": 0.05 if q else 0.5, "htn": 0.05 if q else 0.5, "ma": 0.3 if q else 1.0}
         # share of the longer (3-edit) histories replayed per class, and of the 2-edit ones for the subclasses
-        f3 = {"plain": 0.02 if q else 0.2, "cont": 0.005 if q else 0.1, "htn": 0.005 if q else 0.1, "ma": 0.05 if q else 1.0}
+        f3 = {"plain": 0.02 if q else 0.3, "cont": 0.005 if q else 0.08, "htn": 0.005 if q else 0.08, "ma": 0.05 if q else 0.5}
         f2 = {"plain": 0.3 if q else 1.0, "cont": 0.03 if q else 1.0, "htn": 0.03 if q else 1.0, "ma": 0.3 if q else 1.0}
         for cls in CLASSES:
             for h in hist["ma" if cls == "ma" else "std"]:
